@@ -90,6 +90,49 @@ pub fn omh_oracle(a: &[u64], b: &[u64], l: usize) -> Option<f64> {
     rec(&mut ctx, 0, 0)
 }
 
+/// closed form for l = 1 (any number of occurrences): the lowest pair of the union decides.
+/// If it belongs to both sequences they collide; if it belongs to A only (element e) the lowest pair of B is uniform over
+/// B's pairs and must spell e; symmetrically for B only.
+pub fn omh_l1_closed(a: &[u64], b: &[u64]) -> f64 {
+    let mut ca: HashMap<u64, f64> = HashMap::new();
+    let mut cb: HashMap<u64, f64> = HashMap::new();
+    for e in a {
+        *ca.entry(*e).or_insert(0.) += 1.;
+    }
+    for e in b {
+        *cb.entry(*e).or_insert(0.) += 1.;
+    }
+    let mut els: Vec<u64> = ca.keys().chain(cb.keys()).cloned().collect();
+    els.sort_unstable();
+    els.dedup();
+    let (na, nb) = (a.len() as f64, b.len() as f64);
+    let mut union = 0.;
+    let mut p = 0.;
+    for e in &els {
+        union += ca.get(e).unwrap_or(&0.).max(*cb.get(e).unwrap_or(&0.));
+    }
+    for e in &els {
+        let x = *ca.get(e).unwrap_or(&0.);
+        let y = *cb.get(e).unwrap_or(&0.);
+        p += x.min(y) / union;
+        p += (x - y).max(0.) / union * (y / nb);
+        p += (y - x).max(0.) / union * (x / na);
+    }
+    p
+}
+
+fn heavy_patterns() -> Vec<(&'static str, Vec<u64>, Vec<u64>)> {
+    let rep = |e: u64, n: usize| vec![e; n];
+    let cat = |v: Vec<Vec<u64>>| v.concat();
+    vec![
+        ("heavy_a512b256_vs_b256", cat(vec![rep(0, 512), rep(1, 256)]), rep(1, 256)),
+        ("heavy_a1000b100_vs_b100", cat(vec![rep(0, 1000), rep(1, 100)]), rep(1, 100)),
+        ("heavy_a300_vs_a600b10", rep(0, 300), cat(vec![rep(0, 600), rep(1, 10)])),
+        ("heavy_interleaved_ab300_vs_a257b300", (0..600).map(|i| (i % 2) as u64).collect(), cat(vec![rep(0, 257), rep(1, 300)])),
+        ("heavy_a70000b30000_vs_b30000", cat(vec![rep(0, 70_000), rep(1, 30_000)]), rep(1, 30_000)),
+    ]
+}
+
 fn patterns(tier: Tier) -> Vec<(&'static str, Vec<u64>, Vec<u64>)> {
     let r = |a: std::ops::Range<u64>| a.collect::<Vec<u64>>();
     let mut v = vec![
@@ -194,6 +237,46 @@ pub fn run(rep: &mut Report) {
                 }
                 record_cell(rep, "C10", &cell, &rs, trials * 2, case);
             }
+        }
+    }
+    // ---- l = 1 with heavily repeated elements (hundreds to tens of thousands of occurrences): closed-form oracle
+    // self-check of the two oracles against each other on the small patterns
+    for (pname, pa, pb) in &pats {
+        if let Some(ex) = omh_oracle(pa, pb, 1) {
+            let cf = omh_l1_closed(pa, pb);
+            if (ex - cf).abs() > 1e-12 {
+                rep.inconclusive.push(format!("oracle self-check failed on {}: enumeration {} vs closed form {}", pname, ex, cf));
+            }
+        }
+    }
+    for (hi, (pname, pa, pb)) in heavy_patterns().iter().enumerate() {
+        for &m in &[1u32, 16] {
+            let cell = format!("{}/l=1/m={}", pname, m);
+            if !rep.want(&cell) {
+                continue;
+            }
+            if pa.len() > 5000 && m != 1 {
+                continue;
+            }
+            let theta = omh_l1_closed(pa, pb);
+            let tt: u64 = if pa.len() > 5000 { rep.tier.pick(600, 6000) } else { rep.tier.pick(3000, 30_000) };
+            let minority = theta.min(1. - theta);
+            let enough = (tt as f64) * m as f64 * minority >= 400. && (tt as f64) * (m as f64 * minority).min(1.) >= 80.;
+            let targets = vec![Target::new("collision_fraction", theta, if enough { Kind::TwoSided } else { Kind::Info })];
+            let seed = subseed(rep.seed, "C10/heavy", &[hi as u64, m as u64]);
+            let (rs, trials) = staged(seed, tt, 3, &targets, |rng, out| {
+                let labels = fresh_ids(rng, 2, 0);
+                let a: Vec<u64> = pa.iter().map(|&s| labels[s as usize]).collect();
+                let b: Vec<u64> = pb.iter().map(|&s| labels[s as usize]).collect();
+                let mut sk = ProbOrdMinHash2::<FnvHasher>::new(m, 1);
+                let sa = sk.hash_set(&a);
+                let sb = sk.hash_set(&b);
+                let eq = sa.iter().zip(sb.iter()).filter(|(x, y)| x == y).count();
+                out[0] = eq as f64 / m as f64;
+            });
+            let case = json!({"pattern": pname, "len_A": pa.len(), "len_B": pb.len(), "l": 1, "m": m, "oracle_collision_probability": theta});
+            rep.distinct.insert(mix(&[fnv64(pname.as_bytes()), 1, m as u64]));
+            record_cell(rep, "C10", &cell, &rs, trials * 2, case);
         }
     }
     collect_ticks(rep);
